@@ -6,7 +6,8 @@ record every path the handler passes to a file-creating or file-modifying operat
 `open(..., "wb")`, `os.makedirs`).  The `os` name inside the two modules is replaced by a facade whose
 `path.join/abspath/dirname` are the real pure-Python posixpath functions (executed symbolically) and whose
 `path.exists/makedirs` only record, so the file system is never touched.
-Oracle: POSIX path resolution (posixpath.normpath of the path joined onto the working directory), no symlinks.
+Oracle: POSIX pathname resolution of the path taken relative to the working directory (`resolve`, written out in
+pure Python below because CPython's posixpath.normpath is C code), no symbolic links.
 """
 import posixpath
 
@@ -20,8 +21,9 @@ import pynetdicom.apps.qrscp.handlers as qh
 silence_loggers()
 
 N = tier(4, 6)
+NS = int(__import__('os').environ.get('C30_NS', tier(4, 6)))   # uid length for storescp_paths
 NV = tier(2, 3)   # uid length in the branch-combination harness
-NA, NB = tier(1, 2), tier(2, 3)   # symbolic parts around a traversal skeleton
+NA, NB = tier(1, 2), tier(2, 2)   # symbolic parts around a traversal skeleton
 CWD = "/cwd"
 # configured storage directories: absolute, relative, with trailing separator, nested relative, the cwd itself
 DIRS = {"abs": "/store", "rel": "store", "slash": "/srv/dcm/", "nested": "a/b", "dot": "."}
@@ -286,14 +288,14 @@ _STORESCP_STUBS = [
     functions=["apps.common:handle_store"],
     bounds="SOP Instance UID any str of length <= %d (any code points); SOP Class UID unknown to SOP_CLASS_PREFIXES; "
            "output directory in {/store, store, /srv/dcm/, a/b, ., None}; deflated transfer syntax (open) or not "
-           "(save_as); the write succeeds" % N,
+           "(save_as); the write succeeds" % NS,
     stubs=_STORESCP_STUBS,
     outside="Windows path semantics (ntpath), symbolic links, what pydicom writes into the file",
     shards=[{"dir": k} for k in list(DIRS) + ["none"]],
 )
 def storescp_paths(uid: str, deflated: bool) -> bool:
     """
-    pre: len(uid) <= N
+    pre: len(uid) <= NS
     post: _ == True
     """
     key = shard("dir", "abs")
